@@ -64,6 +64,9 @@ func newHistWorld() *histWorld {
 		}
 		w.garbage[i] = g
 	}
+	// a class the caller registered with a POINTER type: decoding an instance fails, and must leave the entry alone
+	w.tm["PtrReg"] = reflect.TypeOf(&zoo.Item{})
+	w.garbage[5], _ = hessian.ToBytes(zoo.Item{K: "k", V: 1}, map[string]string{"Item": "PtrReg"})
 	// the same classes as a peer with another field order would define them (probe inputs only)
 	tnm := map[string]string{"smallTwin": w.nm["Small"], "[]hx.smallTwin": "[x"}
 	tb, _ := hessian.ToBytes([]interface{}{smallTwin{N: 7, Name: "twin"}, smallTwin{N: 8, Name: "twin2"}}, tnm)
